@@ -69,15 +69,30 @@ EscSet(e, cat) ==
     [] e = "I" -> Sigma \ NameStart
     [] e = "c" -> NameChars
     [] e = "C" -> Sigma \ NameChars
-    [] e = "p" -> CatSet(cat)
+    [] e = "p" -> IF cat = "IsNoSuchBlock" THEN Sigma ELSE CatSet(cat)
     [] e = "P" -> Sigma \ CatSet(cat)
+
+(* \p{IsX} with a block name X that is not known: an error in XSD 1.0, matches every character in XSD 1.1
+   (XSD 1.1 Part 2 G.4.2.3: unrecognised block names are not an error) *)
+RECURSIVE ValidIn(_)
+ValidIn(r) == CASE r.t = "esc" -> ~(r.cat = "IsNoSuchBlock" /\ XsdVersion = "1.0")
+                [] r.t \in {"cat", "alt"} -> ValidIn(r.l) /\ ValidIn(r.r)
+                [] r.t \in {"star", "plus", "opt", "rep", "grp", "dup"} -> ValidIn(r.r)
+                [] OTHER -> TRUE
 
 Lower(e) == CASE e = "D" -> "d" [] e = "S" -> "s" [] e = "W" -> "w" [] e = "I" -> "i"
               [] e = "C" -> "c" [] e = "P" -> "p" [] OTHER -> e
 
 (* ---- case-insensitive mode: the only case pair of the alphabet is a/A ---- *)
 Fold(c) == IF c = UA THEN LA ELSE c
-CharEq(c, d) == c = d \/ (Flag = "i" /\ Fold(c) = Fold(d))
+(* Flag is a string of flag letters ("" "i" "is" "imsx" "si" "ii" ...): each letter acts on its own, the
+   order and repetitions are irrelevant (F&O 5.6.2), so the meaning of a combination is the composition *)
+FlagLetters == CASE Flag = "" -> {} [] Flag = "i" -> {"i"} [] Flag = "s" -> {"s"} [] Flag = "m" -> {"m"} [] Flag = "x" -> {"x"}
+                 [] Flag = "is" -> {"i", "s"} [] Flag = "si" -> {"i", "s"} [] Flag = "im" -> {"i", "m"}
+                 [] Flag = "ix" -> {"i", "x"} [] Flag = "sx" -> {"s", "x"} [] Flag = "ii" -> {"i"}
+                 [] Flag = "ims" -> {"i", "m", "s"} [] Flag = "imsx" -> {"i", "m", "s", "x"} [] Flag = "sm" -> {"s", "m"}
+On(f) == f \in FlagLetters
+CharEq(c, d) == c = d \/ (On("i") /\ Fold(c) = Fold(d))
 
 (* ---- AST constructors (tagged records) ---------------------------------- *)
 Chr(c)       == [t |-> "chr", c |-> c]
@@ -133,21 +148,21 @@ ClsMatchI(c, cl) ==
   LET hit == \E n \in 1..Len(cl.items) : ItemHitI(c, cl.items[n])
       p   == IF cl.neg THEN ~hit ELSE hit
   IN IF cl.sub = <<>> THEN p ELSE p /\ ~ClsMatchI(c, cl.sub[1])
-ClsMatch(c, cl) == IF Flag = "i" THEN ClsMatchI(c, cl) ELSE c \in ClassSet(cl)
+ClsMatch(c, cl) == IF On("i") THEN ClsMatchI(c, cl) ELSE c \in ClassSet(cl)
 
 (* one-character atoms *)
 IsCharAtom(r) == r.t \in {"chr", "any", "esc", "cls"}
 AtomMatch(r, c) ==
   CASE r.t = "chr" -> CharEq(c, r.c)
-    [] r.t = "any" -> (Flag = "s" \/ c # NL)          \* '.' = [^\n\r]; with flag s every character
+    [] r.t = "any" -> (On("s") \/ c # NL)          \* '.' = [^\n\r]; with flag s every character
     [] r.t = "esc" -> c \in EscSet(r.e, r.cat)        \* not affected by flag i
     [] r.t = "cls" -> ClsMatch(c, r)
 
 (* ---- positional matching ------------------------------------------------ *)
 (* ^ : start of the string; with flag m also after a newline that is not the last character
    $ : end of the string;   with flag m also before a newline              (F&O 3.1, 5.6.2) *)
-AtBol(s, i) == i = 0 \/ (Flag = "m" /\ i < Len(s) /\ s[i] = NL)
-AtEol(s, i) == i = Len(s) \/ (Flag = "m" /\ s[i + 1] = NL)
+AtBol(s, i) == i = 0 \/ (On("m") /\ i < Len(s) /\ s[i] = NL)
+AtEol(s, i) == i = Len(s) \/ (On("m") /\ s[i + 1] = NL)
 
 (* ---- back-reference followed by digits ---- *)
 RECURSIVE DVal(_, _)
